@@ -38,6 +38,8 @@ enum Fam {
     SelfHashCheck,
     OutputCount(u8),
     Random(Vec<Op>),
+    /// raw covenant bytes cut inside a literal, extended by a cut literal, or holding an unassigned opcode
+    Mangled(Vec<u8>),
     AlwaysTrue,
 }
 
@@ -56,6 +58,13 @@ fn fam_name(f: &Fam) -> &'static str {
         Fam::SelfHashCheck => "self-hash",
         Fam::OutputCount(_) => "output-count-bound",
         Fam::Random(_) => "random-program",
+        Fam::Mangled(b) => {
+            if refvm::decode(b).is_none() {
+                "undecodable-bytes"
+            } else {
+                "mangled-but-decodable"
+            }
+        }
         Fam::AlwaysTrue => "always-true",
     }
 }
@@ -82,6 +91,7 @@ fn cov_of(f: &Fam, keys: &[Key]) -> Vec<u8> {
         Fam::SelfHashCheck => refvm::encode(&[pushi(0), pushi(4), Op::LoadImm(0), Op::VRef, Op::VRef, Op::Hash(1000), Op::BtoI, Op::LoadImm(4), Op::BtoI, Op::Eql]).unwrap(),
         Fam::OutputCount(n) => refvm::encode(&[pushi(2), Op::LoadImm(0), Op::VRef, Op::VLength, pushi(*n as u128), Op::Eql]).unwrap(),
         Fam::Random(ops) => refvm::encode(ops).unwrap(),
+        Fam::Mangled(b) => b.clone(),
         Fam::AlwaysTrue => always_true_cov(),
     }
 }
@@ -94,7 +104,7 @@ struct Input {
 
 pub fn run(p: &Params) -> Report {
     let mut rep = Report::new("C04");
-    rep.rule = "cases = (state, spending transaction) in which everything except authorisation is valid by construction (coins exist, balanced, fee paid, unlocked, well-formed): 1-8 inputs drawn from covenant families ed25519 legacy/new (right/wrong key, right/wrong slot, signature over another transaction, fields tampered after signing, truncated), hash-lock on data, time-lock and deadline on the previous header's height, spender-index-, value-, additional-data-, parent-height-, parent-index-, output-count-bound, self-hash and random programs; inputs may share one covenant hash while differing in environment, down to twin coins that differ only in coin id and input position; covenants may be missing or undecodable. Oracle: the reference interpreter on the reference environment heap for every input: accepted => every input authorised; for the two standard signature covenants also all authorised => accepted. Non-trivial = >= 2 inputs, or an environment-dependent covenant, or a tampered transaction; distinct by transaction hash".into();
+    rep.rule = "cases = (state, spending transaction) in which everything except authorisation is valid by construction (coins exist, balanced, fee paid, unlocked, well-formed): 1-8 inputs drawn from covenant families ed25519 legacy/new (right/wrong key, right/wrong slot, signature over another transaction, fields tampered after signing, truncated), hash-lock on data, time-lock and deadline on the previous header's height, spender-index-, value-, additional-data-, parent-height-, parent-index-, output-count-bound, self-hash and random programs; inputs may share one covenant hash while differing in environment, down to twin coins that differ only in coin id and input position; covenants may be missing, corrupted after signing, or the coin may be locked to the hash of bytes that are not a program at all (a literal running past the end of a standard covenant or standing alone, an unassigned opcode, a missing operand). Oracle: the reference interpreter on the reference environment heap for every input: accepted => every input authorised; for the two standard signature covenants also all authorised => accepted. Non-trivial = >= 2 inputs, or an environment-dependent covenant, or a tampered transaction; distinct by transaction hash".into();
     let total = p.n(100_000, 2_500_000);
     let mine = p.share(total);
     let mut rng = Rng::new(p.shard_seed() ^ 0xC04);
@@ -124,7 +134,44 @@ pub fn run(p: &Params) -> Report {
                 }
                 inputs[j].fam.clone()
             } else {
-                match r.below(14) {
+                match r.below(15) {
+                    14 => {
+                        // a coin locked to the hash of bytes that are not a program: a literal running past the
+                        // end (alone, at the end of a standard covenant, or appended to one) or an unassigned opcode
+                        let base = match r.below(4) {
+                            0 => ed25519_new_cov(&keys[r.usize(4)].pk),
+                            1 => ed25519_legacy_cov(&keys[r.usize(4)].pk),
+                            2 => always_true_cov(),
+                            _ => vec![],
+                        };
+                        let mut b = base.clone();
+                        match r.below(5) {
+                            0 => {
+                                let len = 1 + r.below(64) as usize;
+                                let have = r.usize(len);
+                                b.extend([0xf0u8, len as u8]);
+                                b.extend(r.bytes(have));
+                            }
+                            1 => {
+                                let have = r.usize(32);
+                                b.push(0xf1);
+                                b.extend(r.bytes(have));
+                            }
+                            2 => {
+                                let cut = 1 + r.usize(b.len().min(40).max(1));
+                                b.truncate(b.len().saturating_sub(cut));
+                                if b.is_empty() {
+                                    b = vec![0xf0, 9, 1];
+                                }
+                            }
+                            3 => b.push(*r.pick(&[0x08u8, 0x0a, 0x0f, 0x19, 0x2f, 0x3f, 0x45, 0x57, 0x60, 0xa3, 0xb2, 0xc3, 0xee, 0xff])),
+                            _ => {
+                                // operand of the last instruction missing
+                                b.push(*r.pick(&[0x30u8, 0x42, 0x43, 0xa0, 0xa1, 0xb0, 0xf2]));
+                            }
+                        }
+                        Fam::Mangled(b)
+                    }
                     0 | 1 => Fam::SigNew(r.usize(4)),
                     2 => Fam::SigLegacy(r.usize(4)),
                     3 => Fam::HashLock(r.bytes(1 + r.clone().usize(40))),
@@ -248,6 +295,12 @@ pub fn run(p: &Params) -> Report {
                     let key = if tamper == 0 { &keys[(*k + 1) % 4] } else { &keys[*k] };
                     if sigs[0].is_empty() {
                         sigs[0] = key.sk.sign(&msg.0 .0);
+                    }
+                }
+                Fam::Mangled(_) => {
+                    // give the spend every chance: a well-formed signature by a known key in its slot
+                    if sigs[idx].is_empty() {
+                        sigs[idx] = keys[idx % 4].sk.sign(&msg.0 .0);
                     }
                 }
                 _ => {}
